@@ -10,20 +10,21 @@
    free_allocation_request credits the read-pool share of the marker to the recipient's read pool
    without any transfer ([ss_free_read_grant] > 0). *)
 From Coq Require Import ZArith List Bool Lia.
-From ZC Require Import Model.F64 Model.Storage Proof.StorageUtil Proof.Storage Proof.StorageLedger Proof.StorageWitness.
+From ZC Require Import Model.F64 Model.Storage Proof.StorageUtil Proof.Storage Proof.StorageLedger Proof.StorageF64 Proof.StorageLedgerFull Proof.StorageWitness.
 Import ListNotations.
 Open Scope Z_scope.
 
-(* [st_c09]: the C12 invariant (challenge pool = sum of the blobbers' values, write pool >= 0) and
-   non-negative delegate and read pools - uint64 fields in the Go code.
+(* [st_c09 B]: the C12 invariant (challenge pool = sum of the blobbers' values, write pool >= 0),
+   every delegate pool in [0, B) and non-negative read pools - uint64 fields in the Go code, so
+   B = 2^64 is their type; kill / shut-down need B <= 2^53 (see C09_step).
    [ss_op_wf09]: transaction values are non-negative, a passed challenge names a validator, the
    contract's own address signs nothing. *)
 Definition C09_full_statement : Prop :=
-  forall c s t, cf_owner c <> cf_sc c -> st_c09 s -> ss_op_wf09 c (snd t) -> ss_backed c s (fst (ss_step c s t)).
+  forall B c s t, cf_owner c <> cf_sc c -> st_c09 B s -> ss_op_wf09 c (snd t) -> ss_backed c s (fst (ss_step c s t)).
 
 (* Known finding: a free allocation with read_pool_fraction > 0. *)
 Theorem C09_refuted_free_allocation :
-  cf_owner sw_free_conf <> cf_sc sw_free_conf /\ st_c09 sw_free_state /\ ss_op_wf09 sw_free_conf (snd sw_free_txn) /\
+  cf_owner sw_free_conf <> cf_sc sw_free_conf /\ st_c09 (2 ^ 53) sw_free_state /\ ss_op_wf09 sw_free_conf (snd sw_free_txn) /\
   ss_liab sw_free_state = ss_wallet sw_free_conf sw_free_state /\
   ~ ss_backed sw_free_conf sw_free_state (fst (ss_step sw_free_conf sw_free_state sw_free_txn)).
 Proof.
@@ -34,54 +35,104 @@ Qed.
 Print Assumptions C09_refuted_free_allocation.
 
 Theorem C09_full_statement_refuted : ~ C09_full_statement.
-Proof. intros H. destruct C09_refuted_free_allocation as [H1 [H2 [H3 [_ H4]]]]. apply H4. apply H; assumption. Qed.
+Proof. intros H. destruct C09_refuted_free_allocation as [H1 [H2 [H3 [_ H4]]]]. apply H4. apply (H (2 ^ 53)); assumption. Qed.
 Print Assumptions C09_full_statement_refuted.
 
 (* The excess of a free allocation is exactly bounded by the read-pool share of the marker. *)
 Theorem C09_free_allocation_excess :
-  forall c s now id sender assigner recipient coin nonce sg bl s',
-  cf_owner c <> cf_sc c -> st_ok s -> rp_nonneg s ->
+  forall B c s now id sender assigner recipient coin nonce sg bl s',
+  cf_owner c <> cf_sc c -> st_ok B s -> rp_nonneg s ->
   ss_free_alloc c s now id sender assigner recipient coin nonce sg bl = Some s' ->
   ss_liab s' - ss_liab s <= ss_wallet c s' - ss_wallet c s + ss_free_read_grant c coin /\ 0 <= ss_free_read_grant c coin /\
-  st_ok s' /\ rp_nonneg s'.
+  st_ok B s' /\ rp_nonneg s'.
 Proof. exact ss_free_alloc_ledger. Qed.
 Print Assumptions C09_free_allocation_excess.
 
-(* Every other modelled transaction inside [ss_c09_scope] is backed and keeps the invariant.
-   [ss_c09_scope] excludes update_allocation, kill_blobber and shutdown_blobber (their effect on
-   the ledger is checked by the executable oracle only) and free allocations with a non-zero
-   read-pool share. *)
+(* Every modelled transaction except a free allocation with a non-zero read-pool share is backed
+   and keeps the invariant: new_allocation_request, write_pool_lock, commit_connection,
+   generate_challenge, challenge_response, update_allocation_request (extend with
+   adjustChallengePool, add / replace / remove a blobber incl. the killed branch and
+   payChallengePoolPassPaymentsToRemoveBlobber), finalize / cancel_allocation, read_pool_lock /
+   unlock, read_redeem, kill_blobber, shutdown_blobber, update_blobber_settings,
+   add_free_storage_assigner, free_allocation_request without read share.
+   kill / shut-down multiply every delegate pool by the binary64 fraction 1 - kill_slash (half
+   of it for shut-down): for pools below 2^53 (exactly representable) the product never exceeds the
+   pool, which is proved with Flocq and brings in the real-number axioms of the standard library.
+   [f64_wf]: the configured kill_slash is a valid binary64 value and not a NaN. *)
+Theorem C09_step :
+  forall B c s now round o s',
+  B <= 2 ^ 53 -> cf_owner c <> cf_sc c -> f64_wf (cf_kill_slash c) ->
+  st_c09 B s -> ss_op_wf09 c o -> ss_c09_scope_full c o ->
+  ss_apply c s now round o = Some s' -> ss_backed c s s' /\ st_c09 B s'.
+Proof. intros B c s now round o s' HB. exact (ss_apply_c09_full B HB c s now round o s'). Qed.
+Print Assumptions C09_step.
+
+Theorem C09_history :
+  forall B c ts s,
+  B <= 2 ^ 53 -> cf_owner c <> cf_sc c -> f64_wf (cf_kill_slash c) -> st_c09 B s ->
+  Forall (ss_c09_ok_full c) ts -> ss_backed c s (fst (ss_run c s ts)) /\ st_c09 B (fst (ss_run c s ts)).
+Proof. intros B c ts s HB. exact (ss_run_c09_full B HB c ts s). Qed.
+Print Assumptions C09_history.
+
+(* a contract that starts solvent stays solvent *)
+Theorem C09_solvent :
+  forall B c ts s,
+  B <= 2 ^ 53 -> cf_owner c <> cf_sc c -> f64_wf (cf_kill_slash c) -> st_c09 B s ->
+  Forall (ss_c09_ok_full c) ts -> ss_liab s <= ss_wallet c s ->
+  ss_liab (fst (ss_run c s ts)) <= ss_wallet c (fst (ss_run c s ts)).
+Proof. intros B c ts s HB. exact (ss_run_solvent_full B HB c ts s). Qed.
+Print Assumptions C09_solvent.
+
+(* Without kill / shut-down ([ss_c09_scope]) the same holds for every pool bound (B = 2^64: the
+   uint64 type) and does not depend on any axiom. *)
 Theorem C09_step_partial :
-  forall c s now round o s',
-  cf_owner c <> cf_sc c -> st_c09 s -> ss_op_wf09 c o -> ss_c09_scope c o ->
-  ss_apply c s now round o = Some s' -> ss_backed c s s' /\ st_c09 s'.
+  forall B c s now round o s',
+  cf_owner c <> cf_sc c -> st_c09 B s -> ss_op_wf09 c o -> ss_c09_scope c o ->
+  ss_apply c s now round o = Some s' -> ss_backed c s s' /\ st_c09 B s'.
 Proof. exact ss_apply_c09. Qed.
 Print Assumptions C09_step_partial.
 
 Theorem C09_history_partial :
-  forall c ts s, cf_owner c <> cf_sc c -> st_c09 s -> Forall (ss_c09_ok c) ts ->
-  ss_backed c s (fst (ss_run c s ts)) /\ st_c09 (fst (ss_run c s ts)).
+  forall B c ts s, cf_owner c <> cf_sc c -> st_c09 B s -> Forall (ss_c09_ok c) ts ->
+  ss_backed c s (fst (ss_run c s ts)) /\ st_c09 B (fst (ss_run c s ts)).
 Proof. exact ss_run_c09. Qed.
 Print Assumptions C09_history_partial.
 
-(* a contract that starts solvent stays solvent *)
 Theorem C09_solvent_partial :
-  forall c ts s, cf_owner c <> cf_sc c -> st_c09 s -> Forall (ss_c09_ok c) ts ->
+  forall B c ts s, cf_owner c <> cf_sc c -> st_c09 B s -> Forall (ss_c09_ok c) ts ->
   ss_liab s <= ss_wallet c s -> ss_liab (fst (ss_run c s ts)) <= ss_wallet c (fst (ss_run c s ts)).
 Proof. exact ss_run_solvent. Qed.
 Print Assumptions C09_solvent_partial.
 
+(* update_allocation_request on its own *)
+Theorem C09_update_backed :
+  forall B c s now round sender alloc value size ext tpe add rem own s' f,
+  st_c12 s -> st_ok B s -> 0 <= value -> sender <> cf_sc c ->
+  ss_update_f c s now round sender alloc value size ext tpe add rem own = Some (s', f) -> ss_backed c s s' /\ st_ok B s'.
+Proof. exact ss_update_f_backed. Qed.
+Print Assumptions C09_update_backed.
+
+(* StakePool.Kill: no delegate pool below 2^53 grows *)
+Theorem C09_kill_slash_never_raises :
+  forall b (k : Flocq.IEEE754.BinarySingleNaN.binary_float 53 1024) b',
+  Flocq.IEEE754.BinarySingleNaN.is_nan k = false ->
+  Forall (fun p => 0 <= p < 2 ^ 53) (bl_pools b) ->
+  ss_sp_kill b (Flocq.IEEE754.BinarySingleNaN.B2SF k) = Some b' ->
+  pools_le (bl_pools b) (bl_pools b') /\ bl_rewards b' = bl_rewards b /\ bl_id b' = bl_id b.
+Proof. exact ss_sp_kill_le. Qed.
+Print Assumptions C09_kill_slash_never_raises.
+
 (* the individual movements *)
 Theorem C09_close_backed :
-  forall c s now round a s',
-  al_c12 a -> ss_find_alloc (al_id a) (st_allocs s) = Some a -> st_ok s ->
-  ss_close c s now round a = Some s' -> ss_backed c s s' /\ st_ok s'.
+  forall B c s now round a s',
+  al_c12 a -> ss_find_alloc (al_id a) (st_allocs s) = Some a -> st_ok B s ->
+  ss_close c s now round a = Some s' -> ss_backed c s s' /\ st_ok B s'.
 Proof. exact ss_close_backed. Qed.
 Print Assumptions C09_close_backed.
 
 Theorem C09_challenge_response_backed :
-  forall c s now round sender ch tok pass vals s',
-  st_ok s -> ss_chal_resp c s now round sender ch tok pass vals = Some s' -> ss_backed c s s' /\ st_ok s'.
+  forall B c s now round sender ch tok pass vals s',
+  st_ok B s -> ss_chal_resp c s now round sender ch tok pass vals = Some s' -> ss_backed c s s' /\ st_ok B s'.
 Proof. exact ss_chal_resp_backed. Qed.
 Print Assumptions C09_challenge_response_backed.
 
@@ -98,7 +149,7 @@ Example C09_example :
   ss_free_read_grant sw_free_conf (Some 10000000000) = 1000000000 /\
   (let s' := fst (ss_step sw_free_conf sw_free_state sw_free_txn) in
    (ss_liab s' - ss_liab sw_free_state, ss_wallet sw_free_conf s' - ss_wallet sw_free_conf sw_free_state)) = (10000000000, 9000000000) /\
-  st_c09b sw_killed_state = true /\
+  st_c09b (2 ^ 53) sw_killed_state = true /\ f64_wf (cf_kill_slash sw_conf) /\
   snd (ss_run sw_conf sw_killed_state sw_ok_txns) = [true; true; true] /\
   (let s' := fst (ss_run sw_conf sw_killed_state sw_ok_txns) in
    (ss_liab s' - ss_liab sw_killed_state <=? ss_wallet sw_conf s' - ss_wallet sw_conf sw_killed_state)) = true.
